@@ -43,6 +43,10 @@ def generate(rng, tier):
         if kind == "hmc":
             # a large batch (n_chains * dim >= 4096): size-triggered parallel paths must not depend on the pool either
             cases.append(dict(spec(kind, f, rng.getrandbits(64), 2100, 2, 1), op="threads", threads=[1, 3, 16]))
+            # ... and above 2^14 momentum components, run next to another such sampler in the same process: a large-batch
+            # path that falls back on a process-global generator is reproducible in isolation only
+            big = spec(kind, f, rng.getrandbits(64), 8300, 2, 1)
+            cases.append(dict(big, op="concurrent", others=[spec(kind, f, rng.getrandbits(64), 8300, 2, 1)]))
         # (c) concurrency
         others = [spec(k2, f2, rng.getrandbits(64), 3, 10, 2) for k2, f2 in rng.sample(KINDS, rng.randint(1, 3))]
         if rng.random() < 0.5:
